@@ -27,6 +27,7 @@ class Echo(Command):
         "LL": params.ListParameter(params.ListParameter(params.NumberParameter()), required=False),
         "LLS": params.ListParameter(params.ListParameter(params.ListParameter(params.StringParameter())), required=False),
         "DT": params.DataTypeParameter(required=False),
+        "L": params.ListParameter(required=False),  # a list whose items are taken as they are
     }
     output = params.Parameter()
 
